@@ -184,30 +184,47 @@ def translator_validation(prog, rep, count):
 
 
 def confirm(cand, known):
-    """replay a candidate natively; returns 'violation' / 'known:<id>' / 'not-reproduced'"""
+    """replay a candidate natively; returns 'violation' / 'known:<id>' / 'not-reproduced'.
+    The scenario runs twice: with the scenario's anchor as genesis (stable height 0) and below a stable prefix of 3 blocks
+    (anchor height 3), so that a defect that needs blocks below the anchor is confirmed rather than left inconclusive."""
+    doc = None
+    for prefix in (0, 3):
+        verdict, d = confirm_at(cand, prefix)
+        doc = doc or d
+        if verdict == 'violation':
+            return verdict, d
+    return 'not-reproduced', doc
+
+
+def confirm_at(cand, prefix):
     ts = btc.TreeScenario(list(cand['shape'][1]))
     diffs = {int(k): v for k, v in cand['diffs'].items()}
-    ops = native_ops(ts, diffs, extra=[dict(op='info'), dict(op='main_chain'), dict(op='utxos', addr=7),
-                                       dict(op='balance', addr=7), dict(op='headers', start=0)])
+    ops = native_ops(ts, diffs, stable_prefix=prefix,
+                     extra=[dict(op='info'), dict(op='main_chain'), dict(op='utxos', addr=7),
+                            dict(op='balance', addr=7), dict(op='headers', start=prefix)])
     best = oracle_best_leaf(ts, diffs)
     path = ts.path(best)
+    tip_h = prefix + len(path) - 1
     res = C.run_native([dict(ops=ops)], tag='c02cx')[0]
     info, mc, ut, bal, hd = res[-5:]
     problems = []
-    if info.get('tip') != best or info.get('height') != len(path) - 1:
+    if info.get('tip') != best or info.get('height') != tip_h:
         problems.append('get_blockchain_info says tip %s height %s' % (info.get('tip'), info.get('height')))
     if mc.get('chain') != path or mc.get('len') != len(path):
         problems.append('main chain %s (length fn %s)' % (mc.get('chain'), mc.get('len')))
-    if ut.get('tip') != best or ut.get('tip_height') != len(path) - 1:
+    if ut.get('tip') != best or ut.get('tip_height') != tip_h:
         problems.append('get_utxos tip %s height %s' % (ut.get('tip'), ut.get('tip_height')))
     exp_utxos = sorted(1000 + i for i in path)
     if sorted(u['value'] for u in ut.get('utxos', [])) != exp_utxos:
         problems.append('get_utxos set')
+    if sorted((u['value'], u['height']) for u in ut.get('utxos', [])) != sorted((1000 + i, prefix + j) for j, i in enumerate(path)):
+        problems.append('get_utxos heights')
     if bal.get('balance') != sum(exp_utxos):
         problems.append('get_balance %s' % bal)
-    if hd.get('headers') != path:
+    if hd.get('headers') != path or hd.get('tip_height') != tip_h:
         problems.append('get_block_headers %s' % hd)
-    doc = dict(property=PROP, role=cand['role'], summary=dict(parents=ts.parents, difficulty=diffs), expected_best_chain=path,
+    doc = dict(property=PROP, role=cand['role'], summary=dict(parents=ts.parents, difficulty=diffs, stable_prefix=prefix),
+               expected_best_chain=path,
                native=dict(info=info, main_chain=mc, utxos=ut, balance=bal, headers=hd), problems=problems,
                scenario=dict(ops=ops))
     if not problems:
